@@ -297,6 +297,12 @@ def run(ctx):
         ctx.guard("counter", "reference", lambda: C03.check_counter_engine(ctx, P6, "chacha::reference", "K6"))
         ctx.guard("round-count", "reference", lambda: C03.check_round_loops(ctx, P6, "chacha::reference", [16, 12, 8, 7]))
         ctx.guard("hcore-words", "both", lambda: C03.check_output_ad(ctx, progs.get("K0"), P6))
+    from . import C02 as _C02
+    if "K0" in progs:
+        ctx.guard("block-run", "all", lambda: _C02.check_block_runs(ctx, progs["K0"]))
+    for cfg in ("K3", "K4"):
+        if cfg in progs:
+            ctx.guard("block-run", "simd@" + cfg, lambda cfg=cfg: _C02.check_simd_runs(ctx, progs[cfg], cfg))
     from . import arx
     got2 = []
     ctx.guard("block-eq", "chacha-engines", lambda: got2.append(arx.check_engines(ctx, {k: progs[k] for k in ("K0", "K6") if k in progs}, families=("chacha",))))
